@@ -74,6 +74,15 @@ def c13(chk):
         tokens(chk, "call", 6, rel, ["if"], workers=16)
         tokens(chk, "assign", 5, rel, ["if"], workers=16)
         diagnostic_treebuilder(chk, 5)
+    # source TEXTS: a sign glued to a number (`+5` has no left operand), parentheses and escaped quotes inside string
+    # literals (text, not structure), stray quotes and comment openers
+    wl = 3 if chk.tier == "quick" else 4
+    prims = vf.make_prims("lexwords", chk.outdir, extra={"words": lex_word_candidates(wl)})
+    for fam, n in (("words", wl), ("raw", wl + 1), ("strparen", 5 if chk.tier == "quick" else 6)):
+        info, summ = vf.run_model(f"lex_{fam}{n}", "MC_Lex.tla", {"Family": fam, "MaxLen": n}, chk.outdir,
+                                  workers=12 if chk.tier == "quick" else 16, env_extra={"PRIMS": prims}, timeout=3000)
+        chk.add_model(info, summ, rel, [], note=f"MC_Lex.tla family {fam} up to length {n}: ill-formed texts are rejected, balanced ones "
+                                                 "are never reported as unbalanced")
     traces(chk, "fuzz", "trace_fuzz", quick=(4, 2000), thorough=(16, 20000),
            note="random strings of up to 40 characters over lexer-relevant fragments: the specification classifies each "
                 "(lexical error / not derivable / well-formed / unspecified) and the recorded precompilation outcome must agree")
@@ -255,6 +264,8 @@ def c04(chk):
         ctx_model(chk, "small", {"history", "panic"}, workers=16)
         ctx_model(chk, "names2", {"history", "panic"}, workers=16, timeout=3000)
         ctx_model(chk, "zeros", {"history", "panic"}, workers=16)
+    chk.add_traces("trace_bigctx", "bigctx", 1, 1, "trace_bigctx",
+                   note="one context with 70-110 variables and as many functions (capacity thresholds), the switch, clears in three orders")
     chk.add_traces("trace_macros", "macros", 1, 1, "trace_macros",
                    note="the context_map! and math_consts_context! macros (six invocations: every value kind, functions, repeated keys, "
                         "a type conflict in the middle, the empty map): every entry is applied in order, the first error is returned")
@@ -342,6 +353,9 @@ def c09(chk):
     info, summ = vf.run_model("resolve", "MC_Resolve.tla", {}, chk.outdir, env_extra={"PRIMS": prims})
     chk.add_model(info, summ, {"resolve", "panic"}, ["resolve_nontrivial"], note="MC_Resolve.tla: the complete configuration matrix")
     ctx_model(chk, "small", {"history", "panic"}, workers=12 if chk.tier == "quick" else 16)
+    ctx_model(chk, "zeros", {"history", "panic"}, workers=12 if chk.tier == "quick" else 16)      # a user function named `max`, re-bound and cleared; trees reused
+    chk.add_traces("trace_bigctx", "bigctx", 1, 1, "trace_bigctx",
+                   note="one context with 70-110 variables and as many functions, among them `max` and `len`: the switch and the clears")
     repo_tests(chk)
 
 
@@ -386,6 +400,10 @@ def c06(chk):
     info, summ = vf.run_model(f"lex_strings{sl}", "MC_Lex.tla", {"Family": "strings", "MaxLen": sl}, chk.outdir,
                               workers=12 if chk.tier == "quick" else 16, timeout=3000)
     chk.add_model(info, summ, {"literal", "panic"}, ["wf"], note=f"MC_Lex.tla string bodies up to length {sl} x 3 quotings")
+    info, summ = vf.run_model(f"lex_strparen{sl}", "MC_Lex.tla", {"Family": "strparen", "MaxLen": sl}, chk.outdir,
+                              workers=12 if chk.tier == "quick" else 16, timeout=3000)
+    chk.add_model(info, summ, {"literal", "balanced_reported_unbalanced", "panic"}, ["wf"],
+                  note=f"MC_Lex.tla string bodies over {{a \" \\ ( )}} up to length {sl}: parentheses inside string literals are text")
     info, summ = vf.run_model(f"lex_raw{sl - 1}", "MC_Lex.tla", {"Family": "raw", "MaxLen": sl - 1}, chk.outdir,
                               workers=12 if chk.tier == "quick" else 16, timeout=3000)
     chk.add_model(info, summ, {"literal", "panic"}, ["wf", "lexerr"], note=f"MC_Lex.tla raw source texts up to length {sl - 1}")
